@@ -403,6 +403,47 @@ def ic_check(EoN, cases, report):
     return stats
 
 
+
+# ---------------------------------------------------------------- hypotheses of the wrapper / simulator theorems ----
+def iso_line(G1, G2, f):
+    """G2 = copy of G1 under the label map f; node ids = positions in list(G.nodes()); adjacency = successors in networkx order"""
+    ids1 = {u: i for i, u in enumerate(G1.nodes())}
+    ids2 = {u: i for i, u in enumerate(G2.nodes())}
+    n = len(ids1)
+    toks = ['ISO', str(n)]
+    for G, ids in ((G1, ids1), (G2, ids2)):
+        for a in adj_ids(G, ids):
+            toks += [str(len(a))] + [str(x) for x in a]
+    by1 = {i: u for u, i in ids1.items()}
+    toks += [str(ids2[f[by1[i]]]) for i in range(n)]
+    return ' '.join(toks)
+
+
+def iso_check(rng, n_cases, report):
+    """the relabelled + re-ordered copies that the numerical halves of C14 build (harness/c14.py `relabelled`, harness/c14_ode.py
+    `variants` / ode_common.build_graph) are instances of the hypotheses of C14x_wrapper_outputs_invariant and of the simulator
+    theorems: the extracted iso_okb (C14xIso.iso_okb_spec) must accept them"""
+    from . import c14, c14_ode, simrun as R, ode_common as OC
+    lines = []; meta = []
+    for i in range(n_cases):
+        if i % 2 == 0:
+            gc = R.gen_graph(rng, nmax=8, nmin=2, kind='perm', directed=(i % 4 == 0))
+            G2, f = c14.relabelled(rng, gc, ('perm', 'str', 'tuple')[i % 3])
+            lines.append(iso_line(gc.G, G2, f)); meta.append('c14.relabelled')
+        else:
+            case = OC.gen_case(rng, 'SIS_homogeneous_pairwise_from_graph', False, False)
+            vs = c14_ode.variants(rng, case)
+            G1, l1 = OC.build_graph(case, perm=vs[0][2], relabel=vs[0][1])
+            kind, labels, perm = vs[1 + i % 3]
+            G2, l2 = OC.build_graph(case, perm=perm, relabel=labels)
+            lines.append(iso_line(G1, G2, dict(zip(l1, l2)))); meta.append('c14_ode.variants/' + kind)
+    outs = C.run_model(lines, COMP)
+    bad = [(m, l) for m, l, o in zip(meta, lines, outs) if o.strip() != 'OK 1']
+    for m, l in bad[:1]:
+        report('C14/c14x/iso-hypotheses', 'a relabelled copy built by %s is rejected by the extracted iso_okb: the numerical comparison is outside the hypotheses of the theorems (harness bug)' % m,
+               {'kind': 'iso', 'line': l}, True)
+    return {'iso_cases': len(lines), 'iso_accepted': len(lines) - len(bad)}
+
 # ---------------------------------------------------------------- entry ----
 def part(run, tier, props):
     """called from harness/c14.py; returns a dict for the evidence file"""
@@ -443,6 +484,7 @@ def part(run, tier, props):
     stats, samples = eqv_check(EoN, eqv_cases(rng, n), report)
     stats.update(ic_check(EoN, ic_cases(rng, 10 if tier == 'quick' else 80), report))
     stats.update(pic_check(EoN, pic_cases(rng, 10 if tier == 'quick' else 80), report))
+    stats.update(iso_check(rng, 60 if tier == 'quick' else 600, report))
     for key, (what, rp, no_input) in sorted(found.items()):
         if isinstance(rp, dict) and rp.get('kind') in KINDS:
             rp = dict(rp, replay_cmd='cd /verif && [EON_REPO=...] /venv/bin/python -m harness.c14x <this file>   (harness/c14.py replay() dispatches only its own kinds)')
